@@ -162,8 +162,8 @@ fn manual_history(ctx: &mut Ctx, rng: &mut Rng, thorough: bool) {
     let mut worker: Vec<Held> = vec![];
     let mut pos = 0usize;
     let mut failed = false;
-    let placement = |buf: &BytesMut, allocs: &Vec<Alloc>, cur: usize, held: &Vec<Held>, worker: &Vec<Held>, frame_place: &dyn Fn(&Held) -> String| -> String {
-        let w = format!("{},{},{}", cur, buf.as_ptr() as usize - allocs[cur].base, buf.len());
+    let placement = |win: (usize, usize), allocs: &Vec<Alloc>, cur: usize, held: &Vec<Held>, worker: &Vec<Held>, frame_place: &dyn Fn(&Held) -> String| -> String {
+        let w = format!("{},{},{}", cur, win.0.wrapping_sub(allocs[cur].base), win.1);
         let mut fs: Vec<(usize, String)> = held.iter().chain(worker.iter()).map(|h| (h.h, frame_place(h))).collect();
         fs.sort();
         format!("W={}/F={}", w, fs.iter().map(|x| x.1.clone()).collect::<Vec<_>>().join("+"))
@@ -171,7 +171,10 @@ fn manual_history(ctx: &mut Ctx, rng: &mut Rng, thorough: bool) {
     // placement of a frame = (alloc, offset) recorded at delivery from the window it was cut from
     let mut frame_alloc: std::collections::HashMap<usize, (usize, usize)> = std::collections::HashMap::new();
     macro_rules! observe {
-        () => {{
+        () => {
+            observe!((buf.as_ptr() as usize, buf.len()))
+        };
+        ($win:expr) => {{
             let fa = &frame_alloc;
             let al = &allocs;
             let fp = |h: &Held| -> String {
@@ -185,7 +188,7 @@ fn manual_history(ctx: &mut Ctx, rng: &mut Rng, thorough: bool) {
                     format!("{},{},?,{}", h.h, a, h.frame.verif_raw().len())
                 }
             };
-            obs.push(placement(&buf, &allocs, cur, &held, &worker, &fp));
+            obs.push(placement($win, &allocs, cur, &held, &worker, &fp));
         }};
     }
     let mut steps = 0;
@@ -231,17 +234,45 @@ fn manual_history(ctx: &mut Ctx, rng: &mut Rng, thorough: bool) {
         // ---- decode everything that is complete
         loop {
             let before_ptr = buf.as_ptr() as usize;
-            match codec.decode(&mut buf) {
+            let before_cap = buf.capacity();
+            let res = codec.decode(&mut buf);
+            // a decoder may legitimately move the buffer before it parses (e.g. reserve room): such a
+            // move is an operation of its own for the model, observed through the pointers
+            let mut note_move = |ops: &mut Vec<String>, allocs: &mut Vec<Alloc>, cur: &mut usize, cur_size: &mut usize, win_ptr: usize, win_cap: usize, log: &mut Log| {
+                let base = allocs[*cur].base;
+                if win_ptr >= base && win_ptr < base + std::cmp::max(*cur_size, 1) {
+                    ops.push(format!("rs:0:{}:{}", win_ptr - base, win_cap));
+                    *cur_size = (win_ptr - base) + win_cap;
+                    log.count("decode:moved-in-allocation");
+                } else {
+                    allocs.push(Alloc { base: win_ptr });
+                    *cur = allocs.len() - 1;
+                    *cur_size = win_cap;
+                    ops.push(format!("rn:0:{}", win_cap));
+                    log.count("decode:moved-to-new-allocation");
+                }
+            };
+            match res {
                 Ok(Some(frame)) => {
                     let raw = frame.verif_raw();
                     let n = raw.len();
                     let h = next_h;
                     next_h += 1;
-                    ops.push(format!("d:{}", n));
-                    if raw.as_ptr() as usize != before_ptr {
-                        ctx.fail("frame-not-cut-from-buffer", format!("frame {} ({} bytes): its bytes are at {:x}, the buffer window it was parsed from was at {:x}", h, n, raw.as_ptr() as usize, before_ptr), &ops.join(","));
-                        failed = true;
+                    let p = raw.as_ptr() as usize;
+                    let q = buf.as_ptr() as usize;
+                    if p != before_ptr && q == p + n {
+                        // moved, then split: the window before the split was at p
+                        note_move(&mut ops, &mut allocs, &mut cur, &mut cur_size, p, n + buf.capacity(), &mut ctx.log);
+                        observe!((p, n + buf.len()));
+                    } else if q == p + n && n + buf.capacity() != before_cap {
+                        // capacity changed in place (the decoder reserved room without moving the data)
+                        ops.push(format!("ri:0:{}", n + buf.capacity()));
+                        cur_size = (p - allocs[cur].base) + n + buf.capacity();
+                        ctx.log.count("decode:capacity-changed-in-place");
+                        observe!((p, n + buf.len()));
                     }
+                    ops.push(format!("d:{}", n));
+                    let before_ptr = if q == p + n { p } else { before_ptr };
                     frame_alloc.insert(h, (cur, before_ptr - allocs[cur].base));
                     ser::record_start();
                     let snap_view = ser::response(frame.parsed());
@@ -264,7 +295,18 @@ fn manual_history(ctx: &mut Ctx, rng: &mut Rng, thorough: bool) {
                         ctx.log.count("frames:retained");
                     }
                 }
-                Ok(None) => break,
+                Ok(None) => {
+                    if buf.as_ptr() as usize != before_ptr {
+                        note_move(&mut ops, &mut allocs, &mut cur, &mut cur_size, buf.as_ptr() as usize, buf.capacity(), &mut ctx.log);
+                        observe!();
+                    } else if buf.capacity() != before_cap {
+                        ops.push(format!("ri:0:{}", buf.capacity()));
+                        cur_size = (before_ptr - allocs[cur].base) + buf.capacity();
+                        ctx.log.count("decode:capacity-changed-in-place");
+                        observe!();
+                    }
+                    break;
+                }
                 Err(_) => {
                     // generated stream the parser refuses: stop this history here
                     pos = stream.len();
